@@ -2,7 +2,8 @@ CONSTANT N = 2
 CONSTANT Universe <- UEmitted
 CONSTANT MaxSteps = 6
 CONSTANT Thresholds = {0, 100}
-CONSTANT FeedModes = {TRUE, FALSE}
+CONSTANT MaxBatch = 1
+CONSTANT FeedModes = {FALSE}
 SPECIFICATION Spec
 VIEW view
 INVARIANT SafeCkpt
